@@ -1117,6 +1117,13 @@ class Interp(object):
         return SBool(z3.simplify(f(fa, fb)),
                      "tensor" if "tensor" in (getattr(a, "pytype", ""), getattr(b, "pytype", "")) else "bool")
       if both_int:
+        # concrete 0/1 on one side: x|1 = 1, x|0 = x, x&0 = 0, x&1 = x for x in {0,1}
+        for u, v, ev in ((a, b, eb), (b, a, ea)):
+          if not is_sym(u) and isinstance(u, (int, bool)) and int(u) in (0, 1) and self.entails(z3.And(ev >= 0, ev <= 1)):
+            if isinstance(op, ast.BitOr):
+              return 1 if int(u) == 1 else SNum(ev, "int")
+            if isinstance(op, ast.BitAnd):
+              return 0 if int(u) == 0 else SNum(ev, "int")
         in01 = z3.And(ea >= 0, ea <= 1, eb >= 0, eb <= 1)
         if isinstance(op, ast.BitOr):
           exact = z3.If(ea + eb >= 1, z3.IntVal(1), z3.IntVal(0))
@@ -1138,9 +1145,10 @@ class Interp(object):
     if not is_sym(a) and a == 2:
       eb = self.num(b)
       if eb.sort() == z3.IntSort():
-        if isinstance(a, int) and pt == "int":
-          # int ** int is an int when the exponent is non-negative, a float otherwise
-          pass
+        # 2 ** n with n >= 0 is an integer: keep it in the Int sort (ipow2);
+        # otherwise the real-valued pow2 (int ** negative int is a float in Python)
+        if self.entails(eb >= 0):
+          return SNum(IPOW2(eb), "int" if (isinstance(a, int) and pt == "int") else ("tensor" if pt == "tensor" else "float"))
         return SNum(POW2(eb), "float" if pt != "tensor" else "tensor")
       raise Unsupported("2 ** real-valued symbolic exponent")
     if not is_sym(b) and isinstance(b, int) and 0 <= b <= 4:
